@@ -32,7 +32,7 @@ Init0 == [tid |-> "none", line |-> 0, maxsize |-> 0, loading |-> 0, failing |-> 
           cur |-> [k \in KeyDom |-> NoCur], sec |-> [k \in KeyDom |-> NoSec], en |-> <<>>, call |-> NoCall,
           gen |-> 0, secGot |-> <<0, 0, 0>>, secDelByGet |-> FALSE, loaded |-> FALSE, loadv |-> 0, loadttl |-> 0,
           pendDemote |-> {}, lastfail |-> FALSE, final |-> FALSE, lastdl |-> 0, failedEnt |-> {}, taint |-> [k \in KeyDom |-> -1], kflost |-> {}, kflostD |-> {}, copied |-> <<>>,
-          closed |-> FALSE, viol |-> {}, traces |-> 0, gets |-> 0, demotions |-> 0]
+          closed |-> FALSE, viol |-> {}, traces |-> 0, gets |-> 0, demotions |-> 0, kfail |-> {}]
 
 V(s, prop, kind) == IF Cardinality(s.viol) >= 60 THEN s ELSE [s EXCEPT !.viol = @ \cup {<<prop, s.tid, s.line, kind>>}]
 Vif(s, c, prop, kind) == IF c THEN V(s, prop, kind) ELSE s
@@ -57,7 +57,7 @@ DoRet(s, e) ==
     [] e.op = "close" -> [s EXCEPT !.closed = TRUE]
     [] e.op = "set" ->
          IF e.ok = 1
-         THEN [s EXCEPT !.gen = s.gen + 1, !.taint = [s.taint EXCEPT ![k] = -1], !.kflost = @ \ {k}, !.kflostD = @ \ {k},
+         THEN [s EXCEPT !.gen = s.gen + 1, !.taint = [s.taint EXCEPT ![k] = -1], !.kflost = @ \ {k}, !.kflostD = @ \ {k}, !.kfail = @ \ {k},
                         !.cur = [s.cur EXCEPT ![k] = [has |-> TRUE, v |-> c.v, deleted |-> FALSE, gen |-> s.gen + 1,
                                                        dl |-> s.lastdl]]]     \* the deadline the store computed (C03 checks that computation)
          ELSE s
@@ -81,7 +81,8 @@ DoRet(s, e) ==
              f == Vif(d, hit /\ ~cu.has, "C14", "value_for_key_never_stored")
              \* C15: once settled, a live key is found without reloading
              live == cu.has /\ ~cu.deleted /\ ~expired
-             lost == s.final /\ live /\ ~hit /\ s.failing = 0
+             \* (a key whose evicted entry the workers could not copy because the secondary store failed is excused)
+             lost == s.final /\ live /\ ~hit /\ k \notin s.kfail
              g == Vif(f, lost, "C15",
                       IF s.secDelByGet /\ s.secGot[3] = 0 THEN "entry_without_ttl_treated_as_expired_on_promotion"
                       ELSE IF k \in s.kflost THEN "entry_evicted_without_identical_copy_in_secondary"
@@ -89,7 +90,7 @@ DoRet(s, e) ==
                       ELSE "live_value_lost_instead_of_demoted")
              \* a reload defines the key's value from now on
              h == IF s.loaded /\ e.ok = 1
-                  THEN [g EXCEPT !.gen = s.gen + 1,
+                  THEN [g EXCEPT !.gen = s.gen + 1, !.kfail = @ \ {k},
                                  !.cur = [g.cur EXCEPT ![k] = [has |-> TRUE, v |-> s.loadv, deleted |-> FALSE, gen |-> s.gen + 1,
                                                                dl |-> s.lastdl]]]
                   ELSE g
@@ -130,7 +131,7 @@ DoSecDel(s, e) ==
 \* direct removal by eviction (no hand-off): the tier must already hold the identical value
 DoMapRemoved(s, e) ==
   LET o == En(s, e.e)
-      badEv == e.reason = "EVICTED" /\ e.deleted = 1 /\ s.failing = 0 /\ ~(s.sec[o.k].has /\ s.sec[o.k].v = o.v /\ s.sec[o.k].dl = o.dl)
+      badEv == e.reason = "EVICTED" /\ e.deleted = 1 /\ ~(s.sec[o.k].has /\ s.sec[o.k].v = o.v /\ s.sec[o.k].dl = o.dl)
       \* the recorded finding D14b: an entry created by promotion and updated in place since, so that the tier
       \* still holds the copy it was promoted from; a promoted entry with no copy at all in the tier is something else
       d14b == o.promoted /\ s.sec[o.k].has
@@ -158,7 +159,7 @@ Upd(s0, e) ==
     [] e.ev \in {"setnew", "setupd"} -> DoSetEv(s, e)
     [] e.ev = "load" -> [s EXCEPT !.loaded = TRUE, !.loadv = e.v, !.loadttl = e.ttl]
     [] e.ev = "handoff" -> DoHandoff(s, e)
-    [] e.ev = "secset" -> IF e.ok = 0 THEN [s EXCEPT !.failedEnt = @ \cup {e.e}]
+    [] e.ev = "secset" -> IF e.ok = 0 THEN [s EXCEPT !.failedEnt = @ \cup {e.e}, !.kfail = @ \cup {En(s, e.e).k}]
                           ELSE [s EXCEPT !.copied = Put(s.copied, e.e, s.sec[En(s, e.e).k].v)]
     [] e.ev = "secdel" -> DoSecDel(s, e)
     [] e.ev = "mapremoved" -> DoMapRemoved(s, e)
